@@ -405,7 +405,7 @@ def _nontrivial(case: dict) -> bool:
 def judge(check: core.Check, cases: list[dict], label: str, observations: Optional[list[dict]] = None) -> dict[str, int]:
     obs = observations if observations is not None else observe(cases, check.seed)
     verdicts, stats = core.adjudicate(
-        "TypeVarSolveTrace", "TypeVarSolveTrace.cfg", obs, batch=4000, parallel=8, timeout=3000
+        "TypeVarSolveTrace", "TypeVarSolveTrace.cfg", obs, batch=1000, parallel=8, timeout=3000
     )
     check.add_trace_stats(stats)
     counts: dict[str, int] = {}
@@ -436,16 +436,17 @@ def judge(check: core.Check, cases: list[dict], label: str, observations: Option
     return counts
 
 
-def _tlc_cases(check: core.Check, cfg: str, actions: list[str], label: str, *, timeout: int) -> list[dict]:
-    res = core.require_ok(
-        core.run_tlc("TypeVarSolveEmit", cfg, coverage=True, timeout=timeout), f"TypeVarSolve {label}"
-    )
-    core.require_coverage(res, actions, f"TypeVarSolve {label}")
-    check.add_tlc(f"exhaustive:{cfg}", res)
-    cases = core.emitted_json(res)
-    if not cases:
-        raise core.MachineryError(f"{cfg}: TLC emitted no cases")
-    return cases
+def _tlc_coverage(cfg: str) -> core.TLCResult:
+    """Vacuity control: both machines and all invariants with -coverage; every action must fire.
+    (quick: the smallest catalogues on which every action fires; thorough: the full catalogues one
+    size below the exhaustive bound -- TLC's coverage instrumentation slows a run down five times.)"""
+    res = core.require_ok(core.run_tlc("TypeVarSolve", cfg, workers=4, coverage=True, timeout=3000), "TypeVarSolve coverage")
+    core.require_coverage(res, RAW_ACTIONS + CALL_ACTIONS, "TypeVarSolve")
+    return res
+
+
+def _tlc_cases(cfg: str) -> core.TLCResult:
+    return core.require_ok(core.run_tlc("TypeVarSolveEmit", cfg, workers=8, timeout=3000), f"TypeVarSolve {cfg}")
 
 
 def _simulate(check: core.Check, cfg: str, num: int, depth: int, seed: int) -> list[dict]:
@@ -460,23 +461,25 @@ def _simulate(check: core.Check, cfg: str, num: int, depth: int, seed: int) -> l
     return list(uniq.values())
 
 
-def _sensitivity(check: core.Check) -> None:
-    expect = [
-        ("TypeVarSolve.strict1.cfg", "SolutionSatisfiesBoundsStrict", "the deviation classes are real on the model"),
-        ("TypeVarSolve.strict2.cfg", "OrderIndependentStrict", "the verdict of the model depends on the order"),
-        ("TypeVarSolve.bug1.cfg", "SolutionSatisfiesBounds", "a solver without the final top.can_assign(bottom) check is rejected"),
-        ("TypeVarSolve.bug2.cfg", "CallSolutionSatisfies", "a call checker without the second pass is rejected"),
-    ]
-    notes = []
-    for cfg, inv, what in expect:
-        r = core.run_tlc("TypeVarSolve", cfg, workers=4, timeout=600)
-        if r.violated != inv:
-            raise core.MachineryError(f"sensitivity self-test failed: {inv} not violated under {cfg}: {r.error}")
-        notes.append(f"{cfg}: {inv} violated as expected ({what})")
-    check.cov["sensitivity"] = notes
+SENSITIVITY = [
+    ("TypeVarSolve.strict1.cfg", "SolutionSatisfiesBoundsStrict", "the deviation classes are real on the model"),
+    ("TypeVarSolve.strict2.cfg", "OrderIndependentStrict", "the verdict of the model depends on the order"),
+    ("TypeVarSolve.bug1.cfg", "SolutionSatisfiesBounds", "a solver without the final top.can_assign(bottom) check is rejected"),
+    ("TypeVarSolve.bug2.cfg", "CallSolutionSatisfies", "a call checker without the second pass is rejected"),
+]
+
+
+def _sensitivity_one(item: tuple[str, str, str]) -> str:
+    cfg, inv, what = item
+    r = core.run_tlc("TypeVarSolve", cfg, workers=2, timeout=600)
+    if r.violated != inv:
+        raise core.MachineryError(f"sensitivity self-test failed: {inv} not violated under {cfg}: {r.error}")
+    return f"{cfg}: {inv} violated as expected ({what})"
 
 
 def run(check: core.Check) -> None:
+    from concurrent.futures import ThreadPoolExecutor
+
     quick = check.tier == "quick"
     rnd = random.Random(check.seed)
     check.assumptions += [
@@ -495,13 +498,26 @@ def run(check: core.Check) -> None:
         "parameters over 23 (form, argument) kinds, every parameter order checked by the real visitor; non-trivial = "
         "at least two distinct bounds / two parameters"
     )
-    _sensitivity(check)
-
-    # 1. exhaustive model checking (all orders = interleavings) + emission of the multisets
+    # 1. TLC on the model (the jobs are independent processes: run them side by side):
+    #    coverage run, sensitivity self-tests, exhaustive model checking (all orders = interleavings of
+    #    the Fold*/PickParam actions) with emission of every multiset
+    cov_cfg = "TypeVarSolve.quick.cfg" if quick else "TypeVarSolve.thorough.cfg"
     raw_cfg = "TypeVarSolve.emit3.cfg" if quick else "TypeVarSolve.emit4.cfg"
     call_cfg = "TypeVarSolve.callemit2.cfg" if quick else "TypeVarSolve.callemit3.cfg"
-    raw_cases = _tlc_cases(check, raw_cfg, RAW_ACTIONS, "raw", timeout=3000)
-    call_cases = _tlc_cases(check, call_cfg, CALL_ACTIONS, "call", timeout=3000)
+    with ThreadPoolExecutor(7) as ex:
+        f_cov = ex.submit(_tlc_coverage, cov_cfg)
+        f_raw = ex.submit(_tlc_cases, raw_cfg)
+        f_call = ex.submit(_tlc_cases, call_cfg)
+        f_sens = [ex.submit(_sensitivity_one, item) for item in SENSITIVITY]
+        cov_res, raw_res, call_res = f_cov.result(), f_raw.result(), f_call.result()
+        check.cov["sensitivity"] = [f.result() for f in f_sens]
+    check.add_tlc(f"coverage:{cov_cfg}", cov_res)
+    check.add_tlc(f"exhaustive:{raw_cfg}", raw_res)
+    check.add_tlc(f"exhaustive:{call_cfg}", call_res)
+    raw_cases = core.emitted_json(raw_res)
+    call_cases = core.emitted_json(call_res)
+    if not raw_cases or not call_cases:
+        raise core.MachineryError("TLC emitted no cases")
     check.cov["model_cases"] = {"raw": len(raw_cases), "call": len(call_cases)}
 
     # 2. S->C replay of every enumerated multiset, in every order, adjudicated by TLC
@@ -521,8 +537,7 @@ def run(check: core.Check) -> None:
     sim_raw = _simulate(check, "TypeVarSolve.sim.cfg", 150 if quick else 3000, 16, check.seed + 11)
     sim_call = _simulate(check, "TypeVarSolve.callsim.cfg", 60 if quick else 1200, 16, check.seed + 12)
     check.cov["simulated_cases"] = {"raw": len(sim_raw), "call": len(sim_call)}
-    check.cov["verdict_counts"]["raw-simulate"] = judge(check, sim_raw, "tlc-simulate-raw")
-    check.cov["verdict_counts"]["call-simulate"] = judge(check, sim_call, "tlc-simulate-call")
+    check.cov["verdict_counts"]["simulate"] = judge(check, sim_raw + sim_call, "tlc-simulate")
 
 
 def replay(check: core.Check, witness: dict) -> None:
